@@ -424,8 +424,31 @@ impl<'a> Driver<'a> {
 
     /// The drain epilogue of DESIGN §5.4.
     pub fn epilogue(&mut self, order_sel: u16) -> bool {
-        // (1) read every present vertex twice
-        let mut ids = self.r.m.alive();
+        let mut ep = Epilogue::new(&self.r.m, order_sel);
+        while let Some((call, ev)) = ep.next(&self.r.m) {
+            self.out.events.insert(ev);
+            if !self.step(&call) {
+                return false;
+            }
+        }
+        true
+    }
+}
+
+/// The drain epilogue as a call source that looks at the evolving model:
+/// (1) every present vertex is read twice (vertices collected meanwhile are skipped);
+/// (2) as many fresh groups as there are free group slots are created so that they are
+/// alive simultaneously, each gets one datum, then each is read.
+pub struct Epilogue {
+    ids: Vec<usize>,
+    pos: usize,
+    stage2: Option<Vec<Call>>,
+    pos2: usize,
+}
+
+impl Epilogue {
+    pub fn new(m: &crate::model::Model, order_sel: u16) -> Self {
+        let mut ids = m.alive();
         if !ids.is_empty() {
             let rot = gen::idx(order_sel, ids.len());
             ids.rotate_left(rot);
@@ -433,42 +456,39 @@ impl<'a> Driver<'a> {
                 ids.reverse();
             }
         }
-        for v in ids {
-            for _ in 0..2 {
-                if self.r.m.present(v) {
-                    self.out.events.insert("epilogue.read");
-                    if !self.step(&Call::Data(v)) {
-                        return false;
-                    }
-                }
+        Self { ids, pos: 0, stage2: None, pos2: 0 }
+    }
+
+    pub fn next(&mut self, m: &crate::model::Model) -> Option<(Call, &'static str)> {
+        while self.pos < self.ids.len() * 2 {
+            let v = self.ids[self.pos / 2];
+            self.pos += 1;
+            if m.present(v) {
+                return Some((Call::Data(v), "epilogue.read"));
             }
         }
-        // (2) probe every free group slot simultaneously
-        let absent = self.r.m.absent_ids();
-        let free_groups = crate::model::MAX_GROUPS.saturating_sub(self.r.m.groups_alive());
-        let k = free_groups.min(absent.len() / 2);
-        let mut heads = vec![];
-        for i in 0..k {
-            let (x, y) = (absent[2 * i], absent[2 * i + 1]);
-            for c in [Call::Add(x), Call::Add(y), Call::Bind { a: x, b: y, l: Lab::Alpha(0), parsed: false }] {
-                if !self.step(&c) {
-                    return false;
-                }
+        if self.stage2.is_none() {
+            let absent = m.absent_ids();
+            let free_groups = crate::model::MAX_GROUPS.saturating_sub(m.groups_alive());
+            let k = free_groups.min(absent.len() / 2);
+            let mut calls = vec![];
+            for i in 0..k {
+                let (x, y) = (absent[2 * i], absent[2 * i + 1]);
+                calls.push(Call::Add(x));
+                calls.push(Call::Add(y));
+                calls.push(Call::Bind { a: x, b: y, l: Lab::Alpha(0), parsed: false });
             }
-            heads.push((x, y));
-        }
-        for (i, (x, _)) in heads.iter().enumerate() {
-            if !self.step(&Call::Put(*x, vec![i as u8; 1 + (i % 3) * 4])) {
-                return false;
+            for i in 0..k {
+                calls.push(Call::Put(absent[2 * i], vec![i as u8; 1 + (i % 3) * 4]));
             }
-        }
-        for (x, _) in &heads {
-            self.out.events.insert("epilogue.slot_probe");
-            if !self.step(&Call::Data(*x)) {
-                return false;
+            for i in 0..k {
+                calls.push(Call::Data(absent[2 * i]));
             }
+            self.stage2 = Some(calls);
         }
-        true
+        let c = self.stage2.as_ref().unwrap().get(self.pos2)?.clone();
+        self.pos2 += 1;
+        Some((c, "epilogue.slot_probe"))
     }
 }
 
